@@ -8,6 +8,7 @@ From Coq Require Import List NArith Bool String.
 From Verif Require Import Kv.KeyOrd Kv.AList Kv.Spec Kv.Mem Kv.Sql Kv.Refine Kv.Facts Kv.KvGen
   Kv.KvCorr Gen.KvSql.
 From Verif Require Import Kv.Own Kv.OwnSkel Kv.OwnProofs Kv.Tables Kv.TablesProofs Kv.Hashed Gen.KvMemOwn.
+From Verif Require Import Kv.Rows Gen.KvRows.
 Import ListNotations.
 Local Open Scope N_scope.
 
@@ -435,6 +436,29 @@ Theorem C05_destroy_create_empties : forall maxlen hk jv bstep persistent hs s h
 Proof. exact destroy_create_empties. Qed.
 Print Assumptions C05_destroy_create_empties.
 
+(** ** A walk releases what it holds however it ends
+
+    A SQL walk holds a result set on a pooled connection (SQLite: the SHARED
+    lock) from its first row on.  Kv/Rows.v carries the number of result sets
+    left open through the sequential model: a walk leaves one behind when the
+    way it ended (rows exhausted / error or ErrCancel from Scan or the
+    callback / panic of the callback) is not covered by a Close, and a write
+    with something to commit is refused while one is open.  With the shape the
+    translator reads off the walk* methods and sqlIterRows, nothing is ever
+    left open, for every history and from every table: the model is the plain
+    sequential one of the refinement theorems. *)
+Theorem C05_walk_releases_on_every_exit : forall ops t,
+  run (rows_step (shape_from gen_sqlite_walk_defer gen_iter_rows_skel) gen_sqlite_methods) (t, O) ops
+  = ((fst (run (sql_step gen_sqlite_methods) t ops), O), snd (run (sql_step gen_sqlite_methods) t ops)).
+Proof. exact gen_sqlite_walk_releases_on_every_exit. Qed.
+Print Assumptions C05_walk_releases_on_every_exit.
+
+Theorem C05_walks_release_shape :
+  all_release (shape_from gen_sqlite_walk_defer gen_iter_rows_skel) = true /\
+  all_release (shape_from gen_psql_walk_defer gen_iter_rows_skel) = true.
+Proof. exact gen_walks_release. Qed.
+Print Assumptions C05_walks_release_shape.
+
 (** ** The source is the deployed one *)
 Theorem C05_source_frozen :
   gen_sqlite_methods = deployed_methods /\
@@ -586,3 +610,16 @@ Proof.
   - intros a b _ _ H. now injection H.
   - vm_compute. reflexivity.
 Qed.
+
+(** with a Close only at the end of sqlIterRows' loop (no deferred Close), a
+    walk stopped by its callback leaves its result set open and the next write
+    is refused, which the reference map does not do *)
+Example C05_close_at_loop_end_only_refuted :
+  let stop : walkfn := fun _ _ _ => Some ECancel in
+  let ops := [BAdd [97] [] [49]; BWalk stop; BAdd [98] [] [50]; BGet [97]; BCount] in
+  all_release loop_end_only = false /\
+  snd (run (rows_step loop_end_only deployed_methods) ([], O) ops)
+  = [RUnit; RWalk [] (Some ECancel); RErr EBusy; RBytes [49]; RCount 1] /\
+  snd (run (sql_step deployed_methods) [] ops)
+  = [RUnit; RWalk [] (Some ECancel); RUnit; RBytes [49]; RCount 2].
+Proof. exact close_at_loop_end_only_refuted. Qed.
